@@ -189,7 +189,7 @@ func main() {
 		if rc.thorough {
 			*budget = 90 * time.Minute
 		} else {
-			*budget = 12 * time.Minute
+			*budget = 20 * time.Minute
 		}
 	}
 	rc.deadline = rc.t0.Add(*budget)
